@@ -265,6 +265,9 @@ func (cur *crsr) Offset(ctx context.Context, offs int) {
 		} else {
 			cur.iterateToPos(ctx, pos)
 		}
+	} else {
+		// settle on the first matching event, so that every step below skips a matching one
+		cur.Get(ctx)
 	}
 
 	for offs > 0 {
